@@ -51,6 +51,13 @@ def families(thorough):
                 for cache in (0, 4):
                     s.append(Case(b1 + ['S'] + b2 + ['S'], stop='X', cache=cache))
                     s.append(Case(['begin'] + b1 + ['S'] + b2, stop='eof', cache=cache))
+    # transaction control and session statements sent through the extended protocol
+    xb = {'begin': ['Pbegin', 'B', 'E', 'S'], 'commit': ['Pcommit', 'B', 'E', 'S'], 'error': ['Perror', 'B', 'E', 'S'], 'set': ['Pset', 'B', 'E', 'S'], 'select': ['P', 'B', 'E', 'S']}
+    for t in (['begin', 'select', 'commit'], ['begin', 'error', 'select', 'commit'], ['begin', 'select'], ['set', 'select'], ['begin', 'set', 'commit'], ['begin', 'commit', 'select'], ['error', 'select']):
+        for stop in ('eof', 'X'):
+            s.append(Case([x for k in t for x in xb[k]], stop=stop))
+            s.append(Case(xb[t[0]] + [x for x in t[1:]], stop=stop))                 # first statement extended, the rest simple
+            s.append(Case([t[0]] + [x for k in t[1:] for x in xb[k]], stop=stop))    # first simple, the rest extended
     F['extended'] = s
     s = []
     for b1 in NAMED:
@@ -101,6 +108,10 @@ def families(thorough):
               ['begin', 'Pt1', 'B', 'E', 'Pt2', 'B', 'E', 'S'], ['qt1', 'Pt2', 'B', 'E', 'S'], ['begin', 'qt1', 'qt2', 'commit']):
         for stop in ('X', 'eof'):
             s.append(Case(t, stop=stop, plugins=('deny-only' if 'H' in t else True)))
+    # statement caching on: a rejected named statement must not become usable through a later Bind
+    for t in (['Pst1', 'S', 'Bs', 'E', 'S'], ['Pst1', 'Bs', 'E', 'S', 'Bs', 'E', 'S'], ['Pst2', 'S', 'Pst1', 'S', 'Bs2', 'E', 'S', 'Bs', 'E', 'S'], ['begin', 'Pst1', 'S', 'Bs', 'E', 'S'],
+              ['Pst1', 'Ds', 'S', 'Ds', 'S']):
+        s.append(Case(t, stop='X', cache=4, plugins=True))
     F['plugins'] = s
     # -- the backend reports an arbitrary (reachable) transaction status after every statement
     s = []
